@@ -342,6 +342,34 @@ Definition init_fs (c : cfg) : fs :=
            | POther _ => Old
            end.
 
+(* ------------------------------------------------------------------ *)
+(* the protocol of a single output file written as a grammar            *)
+(*   Unlink out? ; Unlink tmp? ; create ; Write^w0 ; Close ;            *)
+(*   (OpenAppend ; Write^w ; Close)^* ; Rename                          *)
+(* ------------------------------------------------------------------ *)
+Definition writes (i w : nat) : list op := repeat (Write (PTmp i)) w.
+
+Definition round (i w : nat) : list op :=
+  OpenAppend (PTmp i) :: writes i w ++ [Close (PTmp i)].
+
+(* trunc: the file is created with CreateTrunc ("w") rather than by
+   open-append on the absent name *)
+Definition setup_create (so st trunc : bool) : list op :=
+  (if so then [Unlink (POut 0)] else [])
+  ++ (if st then [Unlink (PTmp 0)] else [])
+  ++ [if trunc then CreateTrunc (PTmp 0) else OpenAppend (PTmp 0)].
+
+Definition file_word (so st trunc : bool) (w0 : nat) (rounds : list nat)
+  : list op :=
+  setup_create so st trunc
+  ++ writes 0 w0
+  ++ Close (PTmp 0)
+     :: flat_map (round 0) rounds ++ [Rename (PTmp 0) (POut 0)].
+
+Definition cfg1 (tk : task) (so st : bool) : cfg :=
+  {| c_task := tk; c_so := fun _ => so; c_st := fun _ => st |}.
+
+
 (* hypothesis of the theorems on the file system before the run: it is what
    the stale-file flags say; inputs and other files are complete or absent *)
 Definition init_ok (c : cfg) (s0 : fs) : Prop :=
